@@ -446,6 +446,10 @@ class SNum(Sym):
     def is_int(self):
         return z3.is_int(self.z)
 
+    def is_integer(self):
+        """float.is_integer() / np.float64.is_integer()"""
+        return True if z3.is_int(self.z) else SBool(z3.IsInt(self.z))
+
     def _r2(self, o, f):
         if f is None:
             return None
